@@ -4,6 +4,7 @@ package main
 import (
 	"io"
 	"log"
+	"os"
 
 	"verif/harness/checks"
 	"verif/harness/vk"
@@ -11,5 +12,9 @@ import (
 
 func main() {
 	log.SetOutput(io.Discard) // asm.Parse logs through the stdlib logger
+	if len(os.Args) > 1 && os.Args[1] == "C12CHILD" {
+		checks.C12Child(os.Args[2:])
+		return
+	}
 	vk.Main(checks.All())
 }
